@@ -99,9 +99,10 @@ type Task struct {
 	lastSite    int   // site at which the task last gave up the baton
 	interrupted bool  // Fair: pre-empted by a timer wake-up, resumes first with the rest of its quantum
 	qRemain     int64
-	stalled     bool  // sleeping because of an injected sync-point stall
-	waitFrom    int64 // virtual time since when the task has been kept off the CPU involuntarily (-1: not waiting)
-	condWait    bool  // parked in Cond.Wait
+	stalled     bool   // sleeping because of an injected sync-point stall
+	waitFrom    int64  // virtual time since when the task has been kept off the CPU involuntarily (-1: not waiting)
+	armSeq      uint64 // sequence number of the timer the task is waiting for (a fired timer with another number is stale)
+	condWait    bool   // parked in Cond.Wait
 	wokeAt      int64
 	MaxLate     int64 // largest lateness of a wake-up
 	MaxBusy     int64 // largest virtual time between a wake-up and the next Sleep call
@@ -588,7 +589,8 @@ func (w *World) syncPoint(site int) {
 		w.St.SyncStalls++
 		d := 1 + int64(w.Draw(uint64(w.Cfg.SyncStallMax)+1))
 		t.stalled = true
-		w.pushTimer(timer{at: w.Vnow + d, seq: w.nextSeq(), t: t})
+		t.armSeq = w.nextSeq()
+		w.pushTimer(timer{at: w.Vnow + d, seq: t.armSeq, t: t})
 		t.state = stSleeping
 		w.yieldKind(t, site, 16)
 		return
@@ -704,6 +706,9 @@ func (w *World) pick(from *Task, kind int) *Task {
 		var woken *Task
 		for w.ntimers > 0 && w.timers[0].at <= w.Vnow {
 			tm := w.popTimer()
+			if tm.t.armSeq != tm.seq || tm.t.state != stSleeping {
+				continue // cancelled: the task was woken by something else (a select whose channel case fired)
+			}
 			w.St.TimerFires++
 			tm.t.state = stRunnable
 			tm.t.readyAt = w.Steps
@@ -1064,7 +1069,8 @@ func (w *World) arm(t *Task, d int64) {
 		at += 1 + int64(w.Draw(uint64(w.Cfg.StallMax)))
 		w.St.Stalls++
 	}
-	w.pushTimer(timer{at: at, seq: w.nextSeq(), t: t})
+	t.armSeq = w.nextSeq()
+	w.pushTimer(timer{at: at, seq: t.armSeq, t: t})
 	t.state = stSleeping
 }
 
@@ -1126,13 +1132,7 @@ func (w *World) popTimer() timer {
 
 // ---- timers and tickers ----
 //
-// A channel receive `<-x` in the code under test is rewritten to vsim.Recv(x); that compiles only for the
-// time channels below (Ticker.C, Timer.C, After, Tick), which is all the simulator supports of channels.
-
-type TimeChan struct {
-	tk *Ticker
-	tm *Timer
-}
+// Ticker.C, Timer.C, After and Tick are simulated channels of time.Time (see chan.go) fed by the virtual clock.
 
 // Ticker is what time.NewTicker returns in the instrumented copy.  It needs no task of its own: the next tick
 // time is advanced by whoever receives.
@@ -1240,56 +1240,6 @@ func (t *Timer) Reset(d time.Duration) bool {
 		t.at = w.Vnow + int64(d)
 	}
 	return was
-}
-
-// Recv is what a channel receive is rewritten to.
-func Recv(c *TimeChan) time.Time {
-	if c.tk != nil && c.tk.real != nil {
-		return <-c.tk.real.C
-	}
-	if c.tm != nil && c.tm.real != nil {
-		return <-c.tm.real.C
-	}
-	return recvSim(c)
-}
-
-//go:norace
-func recvSim(c *TimeChan) time.Time {
-	w := W
-	if w == nil {
-		panic("vsim: receive on a simulated time channel outside a world")
-	}
-	t := w.cur
-	if t.abort {
-		return time.Time{}
-	}
-	w.St.SyncEvents++
-	if tk := c.tk; tk != nil {
-		for tk.stopped { // a stopped ticker never delivers: block for good (deadlock detection reports it)
-			t.state = stBlocked
-			w.yield(t, -13)
-		}
-		if w.Vnow < tk.next {
-			w.arm(t, tk.next-w.Vnow)
-			w.yield(t, -1)
-		}
-		v := tk.next
-		for tk.next <= w.Vnow { // the channel buffers one tick, later ones are dropped
-			tk.next += tk.period
-		}
-		return Epoch.Add(time.Duration(v))
-	}
-	tm := c.tm
-	for tm.stopped || tm.fired {
-		t.state = stBlocked
-		w.yield(t, -13)
-	}
-	if w.Vnow < tm.at {
-		w.arm(t, tm.at-w.Vnow)
-		w.yield(t, -1)
-	}
-	tm.fired = true
-	return Epoch.Add(time.Duration(tm.at))
 }
 
 // AfterFunc is what time.AfterFunc is rewritten to: a task that sleeps, then runs f.
